@@ -199,15 +199,21 @@ class Net(nn.Module):
             if op == 'conv':
                 x = self.blocks[f's{i}'](x)
             elif op == 'residual':
-                x = torch.relu(self.blocks[f's{i}a'](x) + self.blocks[f's{i}b'](x))
+                # the sum spelled with the operator or, equivalently, as torch.add(a, b) / torch.add(input=a, other=b)
+                a, b = self.blocks[f's{i}a'](x), self.blocks[f's{i}b'](x)
+                x = torch.relu(torch.add(a, b) if st.get('addfn') == 'torch' else torch.add(input=a, other=b) if st.get('addfn') == 'kw' else a + b)
             elif op == 'skipadd':
-                x = torch.relu(x + self.blocks[f's{i}a'](x))
+                a = self.blocks[f's{i}a'](x)
+                x = torch.relu(torch.add(x, a) if st.get('addfn') == 'torch' else torch.add(input=x, other=a) if st.get('addfn') == 'kw' else x + a)
             elif op == 'concat':
                 ms = []
                 for j, m in enumerate(st['members']):
                     ms.append(x if m == 'id' else self.blocks[f's{i}m{j}'](x))
                 # the channel axis spelled as 1 or, equivalently, with a negative index (-2 in 1D, -3 in 2D)
-                x = torch.cat(ms, dim=-(self.prog['dim'] + 1) if st.get('negc') else 1)
+                if st.get('catkw'):
+                    x = torch.cat(tensors=ms, dim=1)
+                else:
+                    x = torch.cat(ms, dim=-(self.prog['dim'] + 1) if st.get('negc') else 1)
             elif op == 'timecat':
                 # the time axis spelled as 2 or, equivalently, as -1
                 x = torch.relu(torch.cat([self.blocks[f's{i}a'](x), self.blocks[f's{i}b'](x)], dim=-1 if st.get('neg') else 2))
@@ -515,6 +521,11 @@ def option_deviations(prog, with_fold=True):
                     if 's' in o:
                         q['stages'][i]['b'] = dict(o)   # both branches must keep the same length
                 out.append(q)
+            if s['op'] in ('residual', 'skipadd'):
+                for fn in ('torch', 'kw'):
+                    q = _copy(prog)
+                    q['stages'][i]['addfn'] = fn
+                    out.append(q)
             if s['op'] == 'twice':
                 q = _copy(prog)
                 q['stages'][i]['variant'] = 'pool'
@@ -530,6 +541,9 @@ def option_deviations(prog, with_fold=True):
             out.append(q)
             q = _copy(prog)
             q['stages'][i]['negc'] = True
+            out.append(q)
+            q = _copy(prog)
+            q['stages'][i]['catkw'] = True
             out.append(q)
         elif s['op'] == 'timecat':
             q = _copy(prog)
